@@ -11,7 +11,7 @@ from lib.runner import Stage, Violation, HarnessError
 
 RULE = ("histories: Hypothesis rule-based state machines; each rule is one public API call with generated arguments (bundles "
         "feed cells and boundary points returned by earlier calls into later ones; a repeat rule re-issues an earlier call; "
-        "returned lists are mutated in the subject after being recorded). The subject is a long-lived process forked cold from "
+        "returned lists are mutated in the subject after being recorded; results of compact/uncompact/cell_to_children are edited in place and fed back as the same object; earlier calls are re-issued with equal-valued arguments of another type; very long histories around probe calls). The subject is a long-lived process forked cold from "
         "a pristine zygote; the oracle evaluates the same call in a fresh fork of the zygote (import-time state only). "
         "Compared bit-for-bit (float.hex, container types, exception type+message); arguments deep-compared before/after. "
         "One case = one judged call with its history prefix. Non-trivial = the prefix holds >=2 geometry calls on >=2 "
@@ -43,6 +43,33 @@ def _subject_eval(call, mutate):
         res.append(0)
         del res[: len(res) // 2]
     return out, unchanged
+
+
+def _subject_feedback(fname, source_call, edit, cell, extra):
+    """Call source_call, edit the very object it returned in place, hand that same object to a5.<fname>.
+    -> ((status, encoded result), argument values as passed)."""
+    import a5
+    obj = getattr(a5, source_call[0])(*[forkoracle._thaw(a) for a in source_call[1:]])
+    if not isinstance(obj, list):
+        return (("skip", None), None)
+    if edit == "reverse":
+        obj.reverse()
+    elif edit == "append":
+        obj.append(cell)
+    elif edit == "insert0":
+        obj.insert(0, cell)
+    elif edit == "dup":
+        obj.extend(obj[:2])
+    elif edit == "swap" and len(obj) >= 2:
+        obj[0], obj[-1] = obj[-1], obj[0]
+    elif edit == "slice" and len(obj) >= 3:
+        obj[1:2] = [cell, cell]
+    values = list(obj)
+    try:
+        out = ("ok", forkoracle.encode(getattr(a5, fname)(obj, *extra)))
+    except Exception as e:  # noqa: BLE001
+        out = ("exc", f"{type(e).__name__}: {e}")
+    return (out, values)
 
 
 def _subject_bulk(name, first, stride, count):
@@ -80,6 +107,8 @@ class Subject:
                     try:
                         if req[0] == "__bulk__":
                             out = ("ok", _subject_bulk(*req[1:]))
+                        elif req[0] == "__feedback__":
+                            out = ("ok", _subject_feedback(*req[1:]))
                         else:
                             out = ("ok", _subject_eval(*req))
                     except BaseException as e:  # noqa: BLE001
@@ -186,6 +215,28 @@ class History:
         self.faces.append(_face_of(call, got))
         self.calls.append(call)
         return got
+
+    def feedback(self, fname, source_call, edit, cell, extra):
+        """The object returned by source_call is edited in place and passed to fname in the subject; a fresh process
+        gets the same argument *values* in a plain list. Results must agree."""
+        forkoracle._send(self.subject.req_w, ("__feedback__", fname, source_call, edit, cell, extra))
+        status, val = forkoracle._recv(self.subject.res_r)
+        if status != "ok":
+            raise HarnessError(f"subject failure: {val}")
+        got, values = val
+        marker = ["__feedback__", fname, source_call, edit, cell, extra]
+        if got[0] == "skip":
+            return
+        equiv = [fname, ["l"] + list(values)] + list(extra)
+        want = _oracle(equiv)
+        case = {"history": self.calls + [marker]}
+        if got != want:
+            raise Violation("differs_from_fresh_process", case, observed=_short(got), expected=_short(want),
+                            note=f"{fname} was handed the (edited) list object returned by {source_call[0]}; a fresh process got the same values in a plain list")
+        self.col.case({"history_len": len(self.calls) + 1, "last": marker, "prefix_hash": hash(repr(self.calls)) & 0xFFFFFFFF},
+                      nontrivial=True, classes=["call:" + fname, "returned_object_fed_back", "nontrivial_history"])
+        self.calls.append(marker)
+        self.faces.append(None)
 
     def subject_bulk(self, name, first, stride, count):
         forkoracle._send(self.subject.req_w, ("__bulk__", name, first, stride, count))
@@ -309,6 +360,31 @@ class A5History(RuleBasedStateMachine):
     def compact_bundle(self, cs):
         self.h.step(["compact", ["l"] + list(cs)])
 
+    @rule(cs=st.lists(cells, min_size=1, max_size=8), extra_cell=cells, edit=st.sampled_from(["reverse", "append", "insert0", "dup", "swap", "slice", "none"]),
+          kind=st.integers(0, 2), t=st.integers(0, 2))
+    def feed_result_back(self, cs, extra_cell, edit, kind, t):
+        """compact / uncompact / cell_to_children results, edited in place by the caller, go straight back into
+        compact / uncompact as the same list object."""
+        if kind == 0:
+            src = ["compact", ["l"] + list(cs)]
+        elif kind == 1:
+            c = cs[0]
+            src = ["cell_to_children", c, min(29, refids.res_of(c) + 1 + t % 2)]
+        else:
+            r = max(refids.res_of(c) for c in cs)
+            if min(refids.res_of(c) for c in cs) < r - 5:
+                return
+            src = ["uncompact", ["l"] + list(cs), min(29, r + t % 2)]
+        if t == 2:
+            r = max([refids.res_of(c) for c in cs] + [refids.res_of(extra_cell)])
+            target = min(29, r + 1)
+            # keep the expansion enumerable: every cell involved must be within 5 levels of the target
+            if min([refids.res_of(c) for c in cs] + [refids.res_of(extra_cell)]) < target - 5:
+                return
+            self.h.feedback("uncompact", src, edit, extra_cell, [target])
+        else:
+            self.h.feedback("compact", src, edit, extra_cell, [])
+
     @rule(i=st.integers(0, 10 ** 6), which=st.integers(0, 3))
     def repeat_retyped(self, i, which):
         """Re-issue an earlier call with one argument replaced by an equal-valued value of another type (int -> float
@@ -423,6 +499,8 @@ def replay(rec, col):
         for i, call in enumerate(hist):
             if call and call[0] == "__bulk__":
                 h.subject_bulk(*call[1:])
+            elif call and call[0] == "__feedback__":
+                h.feedback(*call[1:])
             else:
                 h.step(call, mutate=True, is_repeat=call in hist[:i])
     finally:
